@@ -32,6 +32,8 @@ class Built:
         self.block = None
         self.blocks = []     # every block object created, innermost first
         self.constraint_objects = []
+        self.cont_factors = []
+        self.cont_constraints = []
 
     def level(self, fname, lname):
         return self.F[fname].get_level(lname)
@@ -108,9 +110,9 @@ def make_block(b, B, constraint_hook=None):
     B.constraint_objects.extend(cs)
     t = b["type"]
     if t == "cross":
-        blk = sp.CrossBlock([B.F[n] for n in b["design"]], [B.F[n] for n in b["crossing"]], cs, b["rcc"])
+        blk = sp.CrossBlock([B.F[n] for n in b["design"]] + B.cont_factors, [B.F[n] for n in b["crossing"]], cs + B.cont_constraints, b["rcc"])
     elif t == "multi":
-        blk = sp.MultiCrossBlock([B.F[n] for n in b["design"]], [[B.F[n] for n in c] for c in b["crossings"]], cs,
+        blk = sp.MultiCrossBlock([B.F[n] for n in b["design"]] + B.cont_factors, [[B.F[n] for n in c] for c in b["crossings"]], cs + B.cont_constraints,
                                  b["rcc"], _mode(b["mode"]), _align(b["alignment"]))
     elif t == "repeat":
         inner = make_block(b["block"], B, constraint_hook)
@@ -136,6 +138,13 @@ def build(spec):
             make_factors(spec, B)
         except Exception as e:
             raise BuildRejected(e, "factors")
+        if spec.get("continuous"):
+            from . import cont
+            try:
+                level_index = {l[0]: i + 1 for f in spec["factors"] for i, l in enumerate(f["levels"])}
+                B.cont_factors, B.cont_constraints = cont.build(spec["continuous"], spec.get("ccons", []), B.F, level_index)
+            except Exception as e:
+                raise BuildRejected(e, "continuous")
         try:
             B.block = make_block(spec["block"], B)
         except Exception as e:
